@@ -61,7 +61,23 @@ func runComplete(p *ProgDef, line string, zsh bool, args []string) *CompObs {
 	if zsh {
 		os.Setenv("ZSHELL", "true")
 	}
+	// the target is chosen by ZSHELL alone; the rest of the environment (the login shell in
+	// particular) varies from case to case and must not matter
+	oldShell, hadShell := os.LookupEnv("SHELL")
+	switch len(line) % 4 {
+	case 0:
+		os.Setenv("SHELL", "/bin/zsh")
+	case 1:
+		os.Setenv("SHELL", "/usr/local/bin/zsh")
+	case 2:
+		os.Unsetenv("SHELL")
+	}
 	defer func() {
+		if hadShell {
+			os.Setenv("SHELL", oldShell)
+		} else {
+			os.Unsetenv("SHELL")
+		}
 		os.Unsetenv("COMP_LINE")
 		os.Unsetenv("ZSHELL")
 		getoptions.VerifSetCompletionWriter(oldW)
